@@ -13,6 +13,7 @@ pub enum CR {
     Terms { buckets: Vec<(i64, u64, Vec<CR>)>, other: u64, err: Option<u64> },
     List(Vec<(i64, u64, Vec<CR>)>),
     Filter(u64, Vec<CR>),
+    Comp(Vec<(Vec<i64>, u64, Vec<CR>)>),
 }
 
 fn num_to_code(f: Fd, x: f64) -> Result<i64, String> {
@@ -155,6 +156,35 @@ pub fn canon_opt(nodes: &[Node], obj: &Value, no_segments: bool) -> Result<Vec<C
                 }
                 CR::List(buckets)
             }
+            Agg::Composite { sources, .. } => {
+                let bs = v["buckets"].as_array().ok_or("composite without buckets")?;
+                let key_of = |kv: &Value| -> Result<Vec<i64>, String> {
+                    sources.iter().map(|s| {
+                        let x = &kv[&s.name];
+                        if s.field.is_str() {
+                            let t = x.as_str().ok_or(format!("composite key {} is not a string: {x}", s.name))?;
+                            universe(s.field).iter().position(|u| u == t).map(|p| p as i64).ok_or(format!("unknown composite key {t:?}"))
+                        } else {
+                            num_to_code(s.field, x.as_f64().ok_or(format!("composite key {} is not a number: {x}", s.name))?)
+                        }
+                    }).collect()
+                };
+                let mut buckets = vec![];
+                for b in bs { buckets.push((key_of(&b["key"])?, b["doc_count"].as_u64().ok_or("doc_count")?, subs_of(n, b, no_segments)?)); }
+                if let Some(last) = buckets.last() {
+                    // after_key values are "<type>:<value>" strings
+                    if let Some(ak) = v["after_key"].as_object() {
+                        let mut plain = serde_json::Map::new();
+                        for s in sources.iter() {
+                            let raw = ak.get(&s.name).and_then(|x| x.as_str()).ok_or(format!("after_key without {}", s.name))?;
+                            let (ty, val) = raw.split_once(':').ok_or(format!("after_key value {raw:?}"))?;
+                            plain.insert(s.name.clone(), if ty == "str" { json!(val) } else { json!(val.parse::<f64>().map_err(|_| format!("after_key value {raw:?}"))?) });
+                        }
+                        if key_of(&Value::Object(plain))? != last.0 { return Err(format!("composite after_key {} is not the last bucket's key", v["after_key"])); }
+                    }
+                }
+                CR::Comp(buckets)
+            }
             Agg::Filter { .. } => CR::Filter(v["doc_count"].as_u64().ok_or("filter doc_count")?, subs_of(n, v, no_segments)?),
         };
         out.push(cr);
@@ -201,6 +231,9 @@ pub struct CmpCtx {
     pub may_truncate: Vec<String>,
     /// histogram / range nodes at which (in lenient mode) only keys and counts are compared
     pub skip_subs_at: Vec<String>,
+    /// attribution mode only: an empty composite page is accepted (see the known finding
+    /// `C14:composite-lost-when-merged-into-empty-from-req`)
+    pub lenient_empty_composite: bool,
     pub notes: Vec<String>,
 }
 
@@ -296,6 +329,16 @@ fn cmp_one(n: &Node, real: &CR, exp: &SR, cx: &mut CmpCtx) -> Result<(), (String
             let _ = numeric;
             r.map_err(here)
         }
+        (CR::Comp(r), SR::Comp { .. }) if r.is_empty() && cx.lenient_empty_composite => Ok(()),
+        (CR::Comp(r), SR::Comp { all, size }) => {
+            let shown = &all[..(*size).min(all.len())];
+            let ks = |l: &[(Vec<i64>, u64, Vec<CR>)]| l.iter().map(|b| (b.0.clone(), b.1)).collect::<Vec<_>>();
+            let es: Vec<(Vec<i64>, u64)> = shown.iter().map(|b| (b.0.clone(), b.1)).collect();
+            if ks(r) != es { return Err(here(format!("composite buckets {:?}, expected {:?}", ks(r), es))); }
+            if cx.skip_subs_at.contains(&n.name) { return Ok(()); }
+            for (x, y) in r.iter().zip(shown) { compare(&n.subs, &x.2, &y.2, cx).map_err(|(w, m)| (format!("[{:?}]>{}", x.0, w), m))?; }
+            Ok(())
+        }
         (CR::Filter(rc, rs), SR::Filter(ec, es)) => {
             if rc != ec { return Err(here(format!("filter doc_count {rc}, expected {ec}"))); }
             compare(&n.subs, rs, es, cx)
@@ -364,6 +407,7 @@ pub fn normalise_ties(nodes: &[Node], crs: &mut [CR]) {
             }
             CR::List(bs) => for b in bs.iter_mut() { normalise_ties(&n.subs, &mut b.2); },
             CR::Filter(_, s) => normalise_ties(&n.subs, s),
+            CR::Comp(bs) => for b in bs.iter_mut() { normalise_ties(&n.subs, &mut b.2); },
             _ => {}
         }
     }
@@ -398,6 +442,12 @@ pub fn same_result(a: &[CR], b: &[CR]) -> Result<(), String> {
                 same_buckets(b1, b2)?;
             }
             (CR::List(b1), CR::List(b2)) => same_buckets(b1, b2)?,
+            (CR::Comp(b1), CR::Comp(b2)) => {
+                let k1: Vec<(Vec<i64>, u64)> = b1.iter().map(|x| (x.0.clone(), x.1)).collect();
+                let k2: Vec<(Vec<i64>, u64)> = b2.iter().map(|x| (x.0.clone(), x.1)).collect();
+                if k1 != k2 { return Err(format!("composite buckets {k1:?} vs {k2:?}")); }
+                for (x, y) in b1.iter().zip(b2) { same_result(&x.2, &y.2).map_err(|e| format!("[{:?}] {e}", x.0))?; }
+            }
             (CR::Filter(c1, s1), CR::Filter(c2, s2)) => {
                 if c1 != c2 { return Err(format!("filter count {c1} vs {c2}")); }
                 same_result(s1, s2)?;
@@ -429,6 +479,7 @@ pub fn empty_counts_lean(nodes: &[Node]) -> String {
                 format!("L[{}]", (0..=k).map(|i| format!("{i}:0:{}", empty_counts_lean(&n.subs))).collect::<Vec<_>>().join(";"))
             }
             Agg::Filter { .. } => format!("F[0:{}]", empty_counts_lean(&n.subs)),
+            Agg::Composite { .. } => "N".into(),
         }
     }
     match nodes.len() { 0 => "N".into(), 1 => one(&nodes[0]), _ => format!("({})({})", one(&nodes[0]), empty_counts_lean(&nodes[1..])) }
